@@ -38,7 +38,7 @@ def write_training(path, lines, encoding='utf-8', newline='\n'):
             f.write(newline.encode('ascii'))
 
 
-def train(workdir, lines, rule='v', newline='\n', raw_bytes=None, **opts):
+def train(workdir, lines, rule='v', newline='\n', raw_bytes=None, keep_existing=False, **opts):
     """Returns (ok, base_directory, captured_stdout, program_info).  ok is run_trainer's return value."""
     tree.imp('lib_trainer.run_trainer')
     import sys
@@ -52,7 +52,7 @@ def train(workdir, lines, rule='v', newline='\n', raw_bytes=None, **opts):
     else:
         write_training(tf, lines, enc, newline)
     base = os.path.join(workdir, 'Rules', rule)
-    if os.path.isdir(base):
+    if os.path.isdir(base) and not keep_existing:
         shutil.rmtree(base)
     pi = program_info(tf, **opts)
     pi['rule_name'] = rule
